@@ -134,7 +134,9 @@ func (b *exampleBuilder) buildExampleForArrayNode(node *internalSchema.ArrayNode
 		}
 
 		if ex == nil {
-			continue
+			// Omitting an element in the middle would shift the following ones to
+			// positions described by other example elements: end the array here.
+			break
 		}
 
 		if emitted {
